@@ -702,20 +702,56 @@ def gen_cases(prop, n, seed, budget=60):
 # --------------------------------------------------------------------------------------------------
 # building and running
 
-def write_cargo_toml():
-    cdir = os.path.join(vlib.ROOT, "harness", "r")
-    text = open(os.path.join(cdir, "Cargo.toml.in")).read().replace("@REPO@", vlib.REPO)
+def _crate_dir():
+    """The harness crate to build: harness/r itself for /repo, a private copy (with the dependency path rewritten)
+       when the check is pointed at a scratch copy of the repository, so that concurrent runs never fight over
+       Cargo.toml."""
+    src = os.path.join(vlib.ROOT, "harness", "r")
+    text = open(os.path.join(src, "Cargo.toml.in")).read().replace("@REPO@", vlib.REPO)
     text = text.replace("# TEMPLATE: tools/checks/layer_r.py writes Cargo.toml from this file (stakker path = vlib.REPO)\n", "# GENERATED from Cargo.toml.in\n")
-    vlib.write_if_changed(os.path.join(cdir, "Cargo.toml"), text)
+    if os.path.realpath(vlib.REPO) == "/repo":
+        vlib.write_if_changed(os.path.join(src, "Cargo.toml"), text)
+        return src, None
+    import hashlib
+    h = hashlib.sha256(os.path.realpath(vlib.REPO).encode()).hexdigest()[:10]
+    dst = os.path.join(vlib.CACHE, "harness-r-" + h)
+    os.makedirs(os.path.join(dst, "src"), exist_ok=True)
+    for fn in os.listdir(os.path.join(src, "src")):
+        vlib.write_if_changed(os.path.join(dst, "src", fn), open(os.path.join(src, "src", fn)).read())
+    vlib.write_if_changed(os.path.join(dst, "Cargo.toml"), text)
+    if not os.path.exists(os.path.join(dst, "Cargo.lock")):
+        shutil.copy(os.path.join(vlib.REPO, "Cargo.lock"), os.path.join(dst, "Cargo.lock"))
+    return dst, h
 
 
-def build_harness(features=("logger",), no_default=False, tag="", extra_rustflags="", toolchain=None, env=None, target=None):
-    """Default for the Layer R checks: the pinned default feature set plus `logger` (needed to observe C20)."""
-    write_cargo_toml()
+def build_harness(features=("logger",), no_default=False, tag="", extra_rustflags="", toolchain=None, env=None, target=None, release=False):
+    """Default for the Layer R checks: the pinned default feature set plus `logger` (needed to observe C20).
+       -> (ok, path of the r_interp binary, log)"""
     features = list(features) if features else None
-    ok, bdir, out = vlib.harness_build("r", features=features, no_default=no_default, tag=tag,
-                                       extra_rustflags=extra_rustflags, toolchain=toolchain, env=env)
-    return ok, os.path.join(bdir, "r_interp"), out
+    cdir, h = _crate_dir()
+    if h is None and target is None:
+        ok, bdir, out = vlib.harness_build("r", features=features, no_default=no_default, tag=tag, release=release,
+                                           extra_rustflags=extra_rustflags, toolchain=toolchain, env=env)
+        return ok, os.path.join(bdir, "r_interp"), out
+    # same command as vlib.harness_build, on the private copy / with an explicit target triple
+    tdir = os.path.join(vlib.CACHE, "target-r%s%s" % (("-" + h) if h else "", ("-" + tag) if tag else ""))
+    cmd = ["cargo"] + (["+" + toolchain] if toolchain else []) + ["build", "--offline", "--target-dir", tdir]
+    if release:
+        cmd.append("--release")
+    if target:
+        cmd += ["--target", target]
+    if no_default:
+        cmd.append("--no-default-features")
+    if features:
+        cmd += ["--features", ",".join(features)]
+    e = {"RUSTFLAGS": ("--cfg %s %s" % (vlib.GUARD, extra_rustflags)).strip(),
+         "UAZU_STAKKER_VERIF_STD": os.path.join(vlib.ROOT, "harness", "shim", "passthrough.rs")}
+    if env:
+        e.update(env)
+    with vlib.Lock("cargo-r%s%s" % (h or "", tag)):
+        rc, out = vlib.run(cmd, cwd=cdir, env=e, timeout=1500)
+    bdir = os.path.join(tdir, target, "release" if release else "debug") if target else os.path.join(tdir, "release" if release else "debug")
+    return rc == 0, os.path.join(bdir, "r_interp"), out
 
 
 def build_model():
@@ -995,7 +1031,8 @@ KNOWN_CLASS = {"F4": (M_DRAINLEFT, "F4_witness.cases"), "F5": (M_PREPHELD, "F5_w
 
 # theorems pinned per property (coq/Props/<prop>.v)
 PINS = {
-    "C01": [], "C02": [], "C03": [], "C04": [], "C05": [], "C06": [], "C15": [], "C16": [], "C20": [],
+    "C01": ["C01_exactly_once_fifo", "F4_refuted"], "C02": [], "C03": [], "C04": [], "C05": [], "C06": [],
+    "C15": ["C15_time"], "C16": [], "C20": [],
 }
 PROOF_FILES = ["R/Syntax.v", "R/Rt.v", "R/Mon.v"]
 
